@@ -114,6 +114,20 @@ func cmdFunc(args []string) int {
 			fmt.Printf("  %-7s %-70s %s %.2fs  at %s\n", r.Status, r.Obl.Name, r.Solver, r.Seconds, r.Obl.Pos)
 			if r.Status == "failed" {
 				fmt.Printf("          model: %s\n", modelSummary(r.Model, 14))
+				if r.Obl.Cond.Op == "and" || (r.Obl.Cond.Op == "=>" && r.Obl.Cond.Args[1].Op == "and") {
+					// which conjuncts are false in a model?
+					cj := r.Obl.Cond
+					if cj.Op == "=>" {
+						cj = cj.Args[1]
+					}
+					sr := Solve(x.buildQueryWatch(r.Obl, cj.Args), "conj", 20*time.Second)
+					vals := parseGetValue(sr.Raw)
+					for i, c := range cj.Args {
+						if vals[fmt.Sprintf("w!%d", i)] == "false" {
+							fmt.Printf("          false conjunct %d: %s\n", i, truncateStr(c.String(), 300))
+						}
+					}
+				}
 				if *evals != "" {
 					env := x.postEnv
 					if env == nil {
